@@ -48,6 +48,23 @@ Theorem C01_face_area_is_newell : forall f, frame_ok (f3_plane f) ->
 Proof. exact face_area_is_newell. Qed.
 Print Assumptions C01_face_area_is_newell.
 
+(* perimeter (generated Polygon2D.perimeter): the cyclic sum of the edge lengths *)
+From LBG Require Import C05_convex C01_perimeter.
+Theorem C01_perimeter_is_the_cyclic_edge_sum : forall qsqrt (p : Polygon2R),
+  Polygon2D_perimeter qsqrt p == cyc_sum (elen qsqrt) (pg_vertices p).
+Proof. exact perimeter_is_cyclic_edge_sum. Qed.
+Print Assumptions C01_perimeter_is_the_cyclic_edge_sum.
+
+Theorem C01_perimeter_start_vertex_independent : forall qsqrt x l,
+  Polygon2D_perimeter qsqrt (mkPolygon2 (x :: l)) == Polygon2D_perimeter qsqrt (mkPolygon2 (l ++ [x])).
+Proof. exact perimeter_start_vertex_independent. Qed.
+Print Assumptions C01_perimeter_start_vertex_independent.
+
+Theorem C01_perimeter_reversal : forall qsqrt, Proper (Qeq ==> Qeq) qsqrt -> forall l,
+  Polygon2D_perimeter qsqrt (mkPolygon2 (rev l)) == Polygon2D_perimeter qsqrt (mkPolygon2 l).
+Proof. exact perimeter_reversal. Qed.
+Print Assumptions C01_perimeter_reversal.
+
 Example C01_nonvacuous :
   Polygon2D_area (mkPolygon2 [mkV2 0 0; mkV2 4 0; mkV2 4 3; mkV2 0 3]) == 12 /\
   Polygon2D_area (mkPolygon2 [mkV2 0 3; mkV2 4 3; mkV2 4 0; mkV2 0 0]) == 12 /\
